@@ -37,9 +37,13 @@ package handlers
 //@ spec hdrOK(h, ctx, x) = (contains(x, ": ") && !ignoredHdr(ufs_before(x, ": "))) ==> ufs_lower(ufs_hdrget(ctx.Request.Header, ufs_before(x, ": "))) == ufs_lower(ufs_piece1(x, ": "))
 // ncolon(k, hs): how many of the first k configured response headers have a ':'
 //@ recspec ncolon(k, hs) = ite(k <= 0, 0, ncolon(k-1, hs) + ite(contains(hs[k-1], ":"), 1, 0))
+// the admission rule of the property, in one predicate (the same three conditions as the guards below)
+//@ spec admitted(h, ctx) = forall(k, 0, len(h.Config.Headers), hdrOK(h, ctx, h.Config.Headers[k])) && ((len(h.Config.Uris) > 0 && !(len(h.Config.Uris) == 1 && h.Config.Uris[0] == "")) ==> exists(i, 0, len(h.Config.Uris), h.Config.Uris[i] == ctx.Request.RequestURI)) && (h.Config.UserAgent == "" || h.Config.UserAgent == ufs_hdrget(ctx.Request.Header, "User-Agent"))
 //@ func (h *HTTP) request(ctx *gin.Context)
 //@   requires nonnil: h != nil && ctx != nil && ctx.Request != nil && ctx.Writer != nil && h.Teamserver != nil && logr.LogrInstance != nil
 //@   modifies *
+// "every other request gets the decoy 404": a request that is not admitted is answered by fake404, once
+//@   ensures decoy: !old(admitted(h, ctx)) ==> ghostint(ctx, "decoy") == old(ghostint(ctx, "decoy")) + 1
 //@   guard-call headers: "parseAgentRequest" forall(k, 0, len(h.Config.Headers), hdrOK(h, ctx, h.Config.Headers[k]))
 //@   guard-call uri:     "parseAgentRequest" (len(h.Config.Uris) > 0 && !(len(h.Config.Uris) == 1 && h.Config.Uris[0] == "")) ==> exists(i, 0, len(h.Config.Uris), h.Config.Uris[i] == ctx.Request.RequestURI)
 //@   guard-call agent:   "parseAgentRequest" h.Config.UserAgent == "" || h.Config.UserAgent == ufs_hdrget(ctx.Request.Header, "User-Agent")
@@ -56,9 +60,13 @@ package handlers
 //@   loop "for _, Header := range h.Config.Response.Headers"
 //@     invariant keep: ctx != nil && ctx.Request != nil && ctx.Writer != nil && h != nil && h.Teamserver != nil
 //@     invariant sent: ghostint(ctx, "hdrs") == old(ghostint(ctx, "hdrs")) + ncolon(idx__, h.Config.Response.Headers)
+// the decoy: status 404 before anything else is written (ghost counter "decoy" of the context: no code reads it)
 //@ func (h *HTTP) fake404(ctx *gin.Context)
 //@   requires nonnil: h != nil && ctx != nil && ctx.Request != nil && ctx.Writer != nil
 //@   modifies *
+//@   ghost-def ghostint(ctx, "decoy") = old(ghostint(ctx, "decoy")) + 1
+//@   guard-call status: "WriteHeader" arg(1) == 404
+//@   guard-call first:  "Header|Write" lastarg(WriteHeader, 1) == 404
 //@ func (e *External) Request(ctx *gin.Context)
 //@   requires nonnil: e != nil && ctx != nil && ctx.Request != nil && ctx.Writer != nil && e.Teamserver != nil && logr.LogrInstance != nil
 //@   modifies *
